@@ -8,6 +8,7 @@ package props
 // set of the first crash). Third generation for the smallest histories in thorough mode.
 
 import (
+	"bytes"
 	"encoding/json"
 	"fmt"
 	"strings"
@@ -84,6 +85,18 @@ func c20Run(c *core.Ctx) {
 					continue
 				}
 				tr := recTrace(im1, rc1.Rec)
+				if rc1.AfterOpen != nil {
+					// the recorded I/O of the recovery, replayed over the crash image, must give the files the
+					// recovery really left behind - otherwise the second-generation images are fiction
+					imf := im1.clone()
+					for i := range tr.Events {
+						imf.apply(&tr.Events[i], -1)
+					}
+					if !bytes.Equal(imf.DB, rc1.AfterOpen.DB) || !bytes.Equal(imf.Log, rc1.AfterOpen.Log) {
+						res.Nondet = append(res.Nondet, fmt.Sprintf("I/O trace of the recovery of history %d (%s) does not reproduce the files it wrote (log %d vs %d bytes)", hi, hr.Describe(p), len(imf.Log), len(rc1.AfterOpen.Log)))
+						continue
+					}
+				}
 				var evKinds []string
 				for _, e := range tr.Events {
 					evKinds = append(evKinds, string(e.Kind))
